@@ -3878,9 +3878,8 @@ class ImpliesSimplifyMacro(Macro):
         elif concl == Not(prem) and rhs == concl:
             return Thm(goal)
         # case 9: (P --> Q) --> Q <--> P | Q
-        elif prem.is_implies() and rhs.is_disj() and prem.arg1.is_implies() \
-                and prem.arg1.arg1 == rhs.arg1 and prem.arg1.arg == prem.arg \
-                    and prem.arg == rhs.arg:
+        elif prem.is_implies() and rhs.is_disj() and prem.arg1 == rhs.arg1 \
+                and prem.arg == concl and concl == rhs.arg:
             return Thm(goal)
         else:
             print("goal", goal)
